@@ -104,6 +104,8 @@ func (c02) Gen(r *rand.Rand, tier string, idx int) *core.Plan {
 	w["entry"] = r.Int64N(2)
 	w["ctor"] = r.Int64N(2)
 	w["minver"] = healthy(6, 75)
+	// how a plugin that owns both verification capabilities lists them: order, and with or without a signing capability
+	w["capform"] = int64(core.Pick(r, 0, 0, 1, 2, 3, 4))
 	return p
 }
 
@@ -236,6 +238,16 @@ func (l c02) Exec(env *core.Env) *core.Result {
 						caps = []pf.Capability{pf.CapabilityRevocationCheckVerifier}
 					case 7:
 						caps = []pf.Capability{pf.CapabilityTrustedIdentityVerifier, pf.CapabilityRevocationCheckVerifier, pf.CapabilitySignatureGenerator}
+						switch w["capform"] {
+						case 1:
+							caps = []pf.Capability{pf.CapabilityRevocationCheckVerifier, pf.CapabilityTrustedIdentityVerifier}
+						case 2:
+							caps = []pf.Capability{pf.CapabilityTrustedIdentityVerifier, pf.CapabilityRevocationCheckVerifier}
+						case 3:
+							caps = []pf.Capability{pf.CapabilityRevocationCheckVerifier, pf.CapabilityTrustedIdentityVerifier, pf.CapabilitySignatureGenerator}
+						case 4:
+							caps = []pf.Capability{pf.CapabilityEnvelopeGenerator, pf.CapabilityRevocationCheckVerifier, pf.CapabilityTrustedIdentityVerifier}
+						}
 					case 8:
 						sp.MetaErr = errors.New("simulated: plugin crashed")
 						caps = []pf.Capability{pf.CapabilityTrustedIdentityVerifier}
@@ -619,12 +631,16 @@ func (l c02) Exec(env *core.Env) *core.Result {
 			}
 			if r := find("authenticity"); r != nil {
 				nativeIdentityFails := w["identity"] == 2 && !(pluginUsable && declared["identity"])
-				pluginIdentityFails := asked["identity"] && pluginExecuted && w["callErr"] == 0 && w["vIdentity"] == 1 && !(w["crit"] == 2)
+				// a revocation verdict the plugin was asked for and omitted ends the evaluation as inconclusive; whether the
+				// identity verdict was looked at before that is the order in which the plugin lists its capabilities
+				// (the same goes for a failing revocation verdict that the level enforces)
+				revocationVerdictMissing := asked["revocation"] && (w["vRevocation"] >= 2 || (w["vRevocation"] == 1 && enf["revocation"] == "enforce"))
+				pluginIdentityFails := asked["identity"] && pluginExecuted && w["callErr"] == 0 && w["vIdentity"] == 1 && !(w["crit"] == 2) && !revocationVerdictMissing
 				shouldFail := w["anchor"] != 0 || nativeIdentityFails || pluginIdentityFails
 				// a failing identity verdict next to an unprocessed critical attribute: whether the verdict is written
 				// into the authenticity result before the attribute problem ends the evaluation is not fixed by the
 				// statement - the result may or may not carry the plugin's failure
-				verdictMayShow := asked["identity"] && pluginExecuted && w["callErr"] == 0 && w["vIdentity"] == 1 && w["crit"] == 2
+				verdictMayShow := asked["identity"] && pluginExecuted && w["callErr"] == 0 && w["vIdentity"] == 1 && (w["crit"] == 2 || revocationVerdictMissing)
 				if shouldFail && r.Error == nil {
 					res.Violate("C02/failed-authenticity-not-reported", key, "anchor=%d identity=%d plugin verdict=%d but the authenticity result carries no error", w["anchor"], w["identity"], w["vIdentity"])
 				}
